@@ -1,5 +1,6 @@
 import SciVerif.Drive.Util
 import SciVerif.Model.C13Spec
+import SciVerif.Lemmas.C13q
 open Lean SciVerif.Drive
 
 /-! JSON line protocol for the DIP core model (used by the C13 and the C14 drivers). -/
@@ -133,6 +134,12 @@ def handle (j : Json) : Except String Json := do
       let q ← getQueue (stripBlankLines (splitOn '\n' text))
       q.mapM determine
     out := out ++ [("lex", resJson lexJson r)]
+  | .error _ => pure ()
+  match j.getObjVal? "marks" with
+  | .ok t =>
+    -- the repaired escape marks of `_determine_node` (Lemmas/C13q.lean) on one text
+    let text ← getStrL t
+    out := out ++ [("marks", jstr (l2s (decodeM (encodeM text)))), ("encoded", jstr (l2s (encodeM text)))]
   | .error _ => pure ()
   match j.getObjVal? "lines" with
   | .ok ls =>
